@@ -1625,6 +1625,15 @@ impl<'t> Cloner<'t> {
         }
     }
 
+    unsafe fn deep_clone_gc_str(&mut self, data: &GcStr) -> Result<GcStr> {
+        unsafe {
+            match self.deep_clone_str(data)? {
+                String(data) => Ok(data),
+                _ => unreachable!(),
+            }
+        }
+    }
+
     unsafe fn deep_clone_data(
         &mut self,
         data_ptr: &GcPtr<DataStruct>,
@@ -1695,7 +1704,8 @@ impl<'t> Cloner<'t> {
                 Ok(_) => unreachable!(),
                 Err(mut new_array) => {
                     match new_array.repr() {
-                        Repr::Byte | Repr::Int | Repr::Float | Repr::String => Ok(()),
+                        Repr::Byte | Repr::Int | Repr::Float => Ok(()),
+                        Repr::String => deep_clone_elems(&mut new_array, |e| self.deep_clone_gc_str(e)),
                         Repr::Array => {
                             deep_clone_elems(&mut new_array, |e| self.deep_clone_array(e))
                         }
